@@ -1,7 +1,7 @@
 #!/bin/bash
 # runs every claimed check (tier $1, default quick) on the current tree, reports, validates evidence
 tier=${1:-quick}
-cd /verif
+cd "$(dirname "$(readlink -f "$0")")"
 ids=$(python3 -c "import json;print(' '.join(c['property_id'] for c in json.load(open('MANIFEST.json'))['checks']))")
 fail=0
 for id in $ids; do
